@@ -1373,7 +1373,8 @@ def run(tier):
                        "The context's own wrappers (core::gemm, core::gemv) are evaluated the same way: a legal list reaches the Fortran symbol unchanged, and "
                        "which illegal leading dimensions they reject is read off and used to classify dispatcher cases whose leading dimension is illegal "
                        "(rejected = conforming; forwarded = the BLAS error handler returns without computing). Every violation carries a concrete member of its "
-                       "case class. Decides the dispatch tables, not numerical results, lazy-range evaluation order, or herk / syrk / trsm.")
+                       "case class. trsm, herk and syrk are decided the same way on their own case lists, and every lazy-range / operator / convenience form is compared "
+                       "with the iterator-level form of its operation (same BLAS calls). Decides the dispatch tables and argument agreement, not numerical results.")
     rep.trusted = ["clang 14 -O2 with forced inlining (normaliser)", "the reference-BLAS contract encoded in checks/c13.py (gemm_identities / gemv_identities, ld >= max(1, rows))",
                    "operand validity model: one unit stride, the other >= the extent when there is more than one row/column, strides positive",
                    "no-overflow assumption of the polynomial domain", "vlib/irval.py, vlib/poly.py"]
